@@ -37,7 +37,7 @@ def plan(tier):
                 items.append({'dim': 1, 'wave': w, 'mode': mode, 'ns': ns[i:i + 8], 'jcap': jcap(tier)})
             for (h, ww) in dwt.sizes_2d(L, tier):
                 items.append({'dim': 2, 'wave': w, 'mode': mode, 'h': h, 'w': ww,
-                              'jcap': min(jcap(tier), 8) if L <= 12 else min(jcap(tier), 4)})
+                              'jcap': min(jcap(tier), 8) if L <= 12 else (min(jcap(tier), 4) if L <= 20 else 2)})
     return items
 
 
